@@ -11,6 +11,7 @@ import (
 	"slices"
 	"sort"
 	"strings"
+	"time"
 
 	"reduction.dev/reduction/dkv/mergesort"
 	"reduction.dev/reduction/dkv/ziptree"
@@ -425,7 +426,43 @@ type mitem struct {
 }
 type sitem struct{ K, Tag uint64 }
 
-func (eng) Execute(mode string, c *hx.Case) (*hx.Result, error) {
+var hung = map[string]bool{}
+
+// Execute runs one case under a watchdog: a non-terminating implementation is reported like a panic (with the case as replay).
+func (e eng) Execute(mode string, c *hx.Case) (*hx.Result, error) {
+	type out struct {
+		res *hx.Result
+		err error
+		pan any
+	}
+	stName, _ := c.Params["struct"].(string)
+	if hung[stName] {
+		panic("skipped: an earlier history on this structure did not terminate")
+	}
+	ch := make(chan out, 1)
+	go func() {
+		var o out
+		defer func() {
+			if p := recover(); p != nil {
+				o.pan = p
+			}
+			ch <- o
+		}()
+		o.res, o.err = e.execute(mode, c)
+	}()
+	select {
+	case o := <-ch:
+		if o.pan != nil {
+			panic(o.pan)
+		}
+		return o.res, o.err
+	case <-time.After(20 * time.Second):
+		hung[stName] = true
+		panic("the implementation did not terminate within 20 s on this history")
+	}
+}
+
+func (eng) execute(mode string, c *hx.Case) (*hx.Result, error) {
 	st, _ := c.Params["struct"].(string)
 	ops, err := decodeOps(c)
 	if err != nil {
